@@ -12,7 +12,7 @@ import (
 func init() {
 	register(&Property{
 		ID:          "C11",
-		Explanation: "Thin claim. Agreement with Node's resolver over all package trees has no oracle inside this repository and is NOT decided. One clause has a code shape: 'whenever Node rejects a specifier because of a package's exports or imports map, esbuild also refuses it' requires that a failure status of the ported algorithm can never turn into a resolution. R1 failure-finality: in finalizeImportsExportsResult every `return …, true, …` lies behind a comparison of the status with one of the three success statuses (Exact, ExactEndsWithStar, Inexact) and never inside an arm of the diagnostic switch for a failure status (the legacy loadAsFileOrDirectory probe under PackagePathNotExported only feeds the error notes); every pjStatus constant is handled. R2 no-fallback: wherever a package with an exports (imports) map is resolved (loadNodeModules incl. self-reference and Yarn PnP, loadPackageImports), the result of esmResolveAlgorithm / finalizeImportsExportsResult is returned unconditionally — no path continues to main-field, index or extension probing after a failed map lookup. R3 undefined-class: Node's algorithm has one 'undefined'; esbuild's two statuses for it (pjStatusUndefined, pjStatusUndefinedNoConditionsMatch) must take the same branch wherever the ported algorithm tests for undefined (array fallbacks, condition objects), except at three reviewed top-level sites that pass the split status on as the final error. R4 real-path-provenance: the real path cached for a symlinked directory entry is the unprocessed first result of evalSymlinks. R5 wildcard-nonempty (known finding). R6 subpath-all-segments. R7 subpath-verbatim. R8 main-field-not-recursive: loadAsMainField reaches neither loadAsDirectory nor itself (VTA call graph; the directory-info cache is not entered). NOT covered: whether each status is computed as Node computes it (pattern precedence, condition order, target validation), directory walks, symlinks, main fields.",
+		Explanation: "Thin claim. Agreement with Node's resolver over all package trees has no oracle inside this repository and is NOT decided. One clause has a code shape: 'whenever Node rejects a specifier because of a package's exports or imports map, esbuild also refuses it' requires that a failure status of the ported algorithm can never turn into a resolution. R1 failure-finality: in finalizeImportsExportsResult every `return …, true, …` lies behind a comparison of the status with one of the three success statuses (Exact, ExactEndsWithStar, Inexact) and never inside an arm of the diagnostic switch for a failure status (the legacy loadAsFileOrDirectory probe under PackagePathNotExported only feeds the error notes); every pjStatus constant is handled. R2 no-fallback: wherever a package with an exports (imports) map is resolved (loadNodeModules incl. self-reference and Yarn PnP, loadPackageImports), the result of esmResolveAlgorithm / finalizeImportsExportsResult is returned unconditionally — no path continues to main-field, index or extension probing after a failed map lookup. R3 undefined-class: Node's algorithm has one 'undefined'; esbuild's two statuses for it (pjStatusUndefined, pjStatusUndefinedNoConditionsMatch) must take the same branch wherever the ported algorithm tests for undefined (array fallbacks, condition objects), except at three reviewed top-level sites that pass the split status on as the final error. R4 real-path-provenance: the real path cached for a symlinked directory entry is the unprocessed first result of evalSymlinks. R5 wildcard-nonempty (known finding). R6 subpath-all-segments. R7 subpath-verbatim. R8 main-field-not-recursive: loadAsMainField reaches neither loadAsDirectory nor itself (VTA call graph; the directory-info cache is not entered). R9 expansion-keys-by-key-shape-only: the append to expansionKeys is control dependent on no field of the entry's value. NOT covered: whether each status is computed as Node computes it (pattern precedence, condition order, target validation), directory walks, symlinks, main fields.",
 		Run: func(p *Prog, tier string) []*RuleResult {
 			return []*RuleResult{c11FailureFinality(p), c11NoFallback(p), c11UndefinedClass(p), c11RealPathProvenance(p), c11WildcardNonEmpty(p), c11SubpathSegments(p), c11SubpathVerbatim(p), c11MainFieldNotRecursive(p), c11ExpansionKeysByShape(p)}
 		},
